@@ -10,7 +10,7 @@ cd "$(dirname "$0")/.."
 TIER=${1:-quick}; SEED=${2:-1}
 S=/tmp/ubidi-cov
 rm -rf $S; mkdir -p $S coverage
-rsync -a --exclude target harness/ $S/harness/
+rsync -a --exclude 'target*' harness/ $S/harness/
 NB=$(ls -d ~/.rustup/toolchains/nightly-x86_64-unknown-linux-gnu/lib/rustlib/*/bin | head -1)
 ( cd $S/harness && CARGO_NET_OFFLINE=true RUSTFLAGS="--cfg unicode_bidi_verif -C instrument-coverage" \
     cargo +nightly build --release --offline 2>&1 | tail -1 )
